@@ -12,6 +12,9 @@ Etas == { <<1, 2>>, <<1, 1>>, <<3, 1>>, <<5, 2>>, <<10, 1>>, <<100, 1>>, Inf }
 EtaLists == { <<e>> : e \in Etas }
        \cup { <<e, f>> : e \in {<<1, 2>>, <<10, 1>>}, f \in {<<3, 1>>, Inf} }
        \cup { << <<1, 2>>, <<10, 1>>, Inf >>, << <<100, 1>>, <<5, 2>>, <<1, 1>> >> }
+       \* ratios that share their integer part, or differ only after the point
+       \cup { << <<1, 2>>, <<3, 4>> >>, << <<1, 1>>, <<3, 2>> >>, << <<2, 1>>, <<5, 2>>, <<3, 1>> >>,
+               << <<21, 2>>, <<10, 1>>, <<41, 4>> >> }
 
 Sizes2 == { << <<2>> >>, << <<2, 3>> >>, << <<2>>, <<3>> >>, << <<2, 2>>, <<3, 3>>, <<4, 4>> >>, << <<3, 2>>, <<2, 4>> >> }
 Sizes3 == { << <<2>> >>, << <<2, 2, 2>>, <<3, 3, 3>> >>, << <<2, 3, 4>> >>, << <<2, 3>>, <<3, 2, 2>> >> }
